@@ -6,6 +6,8 @@ import os
 import random
 import re
 import shutil
+import sys as _sys
+_sys.setrecursionlimit(100000)   # canonical trees of deeply nested documents are walked recursively
 import subprocess
 import sys
 import time
@@ -20,7 +22,7 @@ ALLOWED_AXIOMS = {"propext", "Classical.choice", "Quot.sound"}
 # theorems of Sonic/Props/Consts.lean (extracted in-body source constants = model constants) each property depends on
 CONST_THMS = {
     "C01": ["parse_consts", "scan_consts", "simd_consts"], "C02": ["parse_consts", "simd_consts"], "C03": ["parse_consts", "simd_consts"], "C04": ["number_consts"],
-    "C05": ["scan_consts", "simd_consts"], "C06": ["serialize_consts"], "C07": ["ftoa_consts"], "C08": [], "C09": ["page_consts", "serialize_consts"],
+    "C05": ["scan_consts", "simd_consts"], "C06": ["serialize_consts"], "C07": ["ftoa_consts", "serialize_consts"], "C08": [], "C09": ["page_consts", "serialize_consts"],
     "C10": ["scan_consts", "simd_consts"], "C11": ["scan_consts", "simd_consts"], "C12": ["dom_consts"], "C13": ["dom_consts", "parse_consts", "shared_state_consts"], "C14": ["page_consts"],
     "C15": ["page_consts", "scan_consts", "parse_consts", "simd_consts"], "C16": ["pool_consts"], "C17": ["pool_consts", "shared_state_consts"], "C18": ["dom_consts"],
     "C19": ["parse_consts"], "C20": ["scan_consts", "serialize_consts", "simd_consts"],
@@ -309,7 +311,7 @@ class Run:
                     env.setdefault("UBSAN_OPTIONS", "print_stacktrace=1")
                 jobs.append(("impl", cfg, si, [exe], inf, os.path.join(self.tmp, f"{label}.{si}.{cfg_label(cfg)}"), env))
         with cf.ThreadPoolExecutor(max_workers=NPROC) as ex:
-            futs = {ex.submit(run_proc, j[3], j[4], j[5], j[6], (getattr(self.mod, "SHARD_TIMEOUT", 900) if self.tier == "quick" else 5400)): j for j in jobs}
+            futs = {ex.submit(run_proc, j[3], j[4], j[5], j[6], (getattr(self.mod, "SHARD_TIMEOUT", 300) if self.tier == "quick" else 5400)): j for j in jobs}
             rcs = {}
             for fu in cf.as_completed(futs):
                 j = futs[fu]
@@ -364,10 +366,27 @@ class Run:
                 if rc != 0 and not lines[-1].startswith("CRASH"):
                     lines[-1] = lines[-1] + f" CRASH rc={rc} {what}"
             return lines
+        # cases are re-run in batches; once enough crashes / hangs have been located in this shard the rest is abandoned (marked, not
+        # judged): a tree on which hundreds of cases hang must not stall the check for hours - a few concrete failing inputs suffice
         out = []
+        # the budget of located crashes is per run and configuration, not per shard
+        if not hasattr(self, "_located"):
+            self._located = {}
+        located = self._located.get(cfg, 0)
+        limit = int(os.environ.get("VERIF_CRASH_LIMIT", "24"))
+        batch = NPROC * 2
         with cf.ThreadPoolExecutor(max_workers=NPROC) as ex:
-            for lines in ex.map(one, sh_cases):
-                out.extend(lines)
+            for k in range(0, len(sh_cases), batch):
+                chunk = sh_cases[k:k + batch]
+                if located >= limit:
+                    for c in chunk:
+                        out.extend(["ABANDONED"] * len(c["lines"]))
+                    continue
+                for lines in ex.map(one, chunk):
+                    if any("CRASH" in ln for ln in lines):
+                        located += 1
+                    out.extend(lines)
+                self._located[cfg] = located
         return out
 
     # ---------------------------------------------------------------------------------------- pipeline
@@ -438,6 +457,9 @@ class Run:
         st = self.stats
         for cfg, rows in results.items():
             for (c, mo, io) in rows:
+                if io and io[0] == "ABANDONED":
+                    st["abandoned"] = st.get("abandoned", 0) + 1
+                    continue
                 st["evaluations"] = st.get("evaluations", 0) + 1
                 v = mod.judge(c, mo, io, cfg)
                 # v: None | ("violation"|"drift", description)
